@@ -59,3 +59,8 @@ CHECKS['C01'] = dict(
     text='8k generated inputs per quick run (500k thorough) over all parser options, entry points and fetcher kinds; oracle: DOM type returned, no exception of any type, cssText works, serialisation reparses and reserialises, call count <= A+B*n+C*n^2, growth ratio cost(2d)/cost(d) <= 12 in nesting sweeps to depth 100. Exploration; complexity is checked on generated families, not proved.',
     note='Trusted: the cost meter (counts Python calls inside cssutils; C-level regex time only guarded by a 60 s alarm = inconclusive); constants calibrated at >=10x the worst ratio on repository sheets; function / unknown-rule nesting deeper than 6 and cyclic imports are listed findings F01-1/2/3 probed by witnesses.',
 )
+CHECKS['C12'] = dict(
+    technique='property-based testing over call histories with injected faults (Hypothesis), differential oracle "full history + probe battery" vs "configuration steps only + probe battery" in forked child processes, plus before/after invariants on the global modes around every parse call',
+    text='500 histories per quick run (60k thorough) of up to 8 calls incl. faults (UnicodeDecodeError, LookupError, raising/garbage/cyclic fetchers, missing file, raising parser, rejected edits, csscombine, profile add/remove, parser reuse); each compared in two forked children; global error mode, serializer object/preferences and profiles checked around every parse call. Exploration over histories, fault kinds enumerated.',
+    note='Trusted: os.fork isolation, pickle; explicit assignments to preferences/profiles/error mode are configuration and replayed in the baseline; log output is not compared.',
+)
